@@ -113,12 +113,12 @@ CLAIMS["C01"] = {
           "(Any, primitives, enums, literals, lists/sequences, homogeneous and heterogeneous tuples, sets, frozensets, mappings, Optional, classes incl. recursive ones, NewType, Annotated; "
           "arbitrary nesting), EVERY value x of that type (rt_value: exact classes at every depth, Any positions hold None/atoms, hashable leaf types for set elements and mapping keys, every "
           "attribute set), the unstructuring Converter in either validation mode and the structuring converter of EITHER class in EITHER mode (so also Converter -> BaseConverter): if unstructure "
-          "returns u then structure returns x itself (Leibniz equality: equal and of the same classes at every depth). Same-fuel form, induction on the fuel; the class case is the class-level "
+          "returns u then structure returns x itself (Leibniz equality: equal and of the same classes at every depth); C01_roundtrip_total: such a u exists. Same-fuel form, induction on the fuel; the class case is the class-level "
           "theorems C01_class_unstructure / C01_class_structure_back (both unstructure templates emit every attribute in order; the detailed, fast and -- via C06 -- interpretive templates give "
           "back the same instance), proved for any payload value type. Tie: T1 (template flags) + CONV lane (model = implementation on every generated case, all 8 configurations incl. tuple "
           "strategy and the BaseConverter unstructuring side, which have no theorem) + the literal round-trip oracle on the implementation across converter classes.",
   "note": TB_CONV + " Theorem limited to: dict strategy, forbid_extra_keys off, Converter on the unstructuring side, classes whose attributes are all __init__ arguments without field converters; "
-          "no totality theorem (that unstructure succeeds on every value is checked by the lane, non-vacuity by C01_nonvacuous_*). TypedDict / NamedTuple / unions / generics inside nested types: "
+          "totality is C01_roundtrip_total (for every value of the type there is an amount of fuel, linear in its size, for which unstructure returns and structure gives the value back). TypedDict / NamedTuple / unions / generics inside nested types: "
           "lane and oracle of their own properties only. Known findings touching C01: F27 (tuple strategy with kw_only / init=False attributes), F10 (BaseConverter with init=False attributes).",
   "technique": "Coq proof (same-fuel induction over an executable nested model; Leibniz round trip of the class templates) + AST translator + differential correspondence + direct oracle",
   "design_ref": "DESIGN.md 4/C01"}
